@@ -318,35 +318,57 @@ def r4(F, R):
         R.missing("C18-R4", "MclmcChain::mclmc_kernel")
         return
     site = "%s @%s" % (b.path, b.loc())
-    # ---- step budget: closure computing num_steps
-    clos = K.all_closures_of(F, b.path)
+    # ---- step budget: the value passed through round() and max(_, 1.0), in the kernel (helpers inlined) or one of its closures
     budget = None
-    for c in clos:
-        if not c.hir:
-            continue
-        ms = [x.get("method") for x in hir_walk(c.hir["value"]) if x.get("k") == "MethodCall"]
-        if "round" in ms and "max" in ms:
-            budget = c
+    for c in [b] + K.all_closures_of(F, b.path):
+        for bb, t in c.calls():
+            cal = t["callee"]
+            if cal.get("name") == "max" and cal.get("impl_self") == "f64" and len(t["args"]) == 2:
+                recv, other = c.value(t["args"][0]), c.value(t["args"][1])
+                rounds = [x for x in vt_walk(recv) if x[0] == "call" and x[3].get("name") == "round" and x[3].get("impl_self") == "f64"]
+                if rounds:
+                    budget = (c, t, rounds[0], other)
     if budget is None:
-        R.bad("C18-R4", b.path + ":budget", site, "closure computing the number of base steps (round + max) not found")
+        R.bad("C18-R4", b.path + ":budget", site, "computation of the number of base steps (round + max) not found")
     else:
-        from .sib import canon, Subst, show
-        lets = [x for x in hir_walk(budget.hir["value"]) if x.get("k") == "Let" and x.get("init") is not None]
-        txt = show(canon(lets[0]["init"], Subst(keep_local_names=True))) if lets else ""
-        fields = {x["name"] for x in hir_walk(budget.hir["value"]) if x.get("k") == "Field"}
-        caps = {c["var"] for c in budget.captures}
-        params = set()
-        for p in budget.hir.get("params", []):
-            for q in hir_walk(p):
-                if q.get("k") == "Binding":
-                    params.add(q["name"])
-        deps = (fields | caps | params) - {"self"}
-        max_one = any(x.get("k") == "MethodCall" and x.get("method") == "max" and K.num_lit(x["args"][0]) == 1.0 for x in hir_walk(budget.hir["value"]))
-        want = {"subsample_frequency", "base_step_size", "length"}
-        if max_one and "round" in txt and deps >= {"subsample_frequency"} and len(deps) == 3 and "/" in txt and "*" in txt:
-            R.ok("C18-R4", b.path + ":budget", "%s @%s" % (budget.path, budget.loc()), "num_steps = %s over %s" % (txt[:90], sorted(deps)))
+        c, t, rnd, other = budget
+        arg = rnd[2][0]
+        deps = set()
+
+        def leaves(v):
+            if v[0] == "bin":
+                leaves(v[2])
+                leaves(v[3])
+            elif v[0] in ("deref", "ref", "cast", "un", "downcast"):
+                leaves(v[1] if v[0] != "un" else v[2])
+            elif v[0] == "field":
+                # payload of an Option / tuple: look at what it is a field of; a named struct field is a leaf
+                if str(v[2]).isdigit():
+                    leaves(v[1])
+                else:
+                    deps.add(str(v[2]))
+            elif v[0] == "upvar":
+                deps.add(str(v[1]).split(".")[-1])
+            elif v[0] == "arg":
+                deps.add(str(v[2] or v[1]))
+            elif v[0] == "call":
+                deps.add(str(v[3].get("name") or v[1]))
+            elif v[0] == "local":
+                deps.add(str(v[2] or "_%d" % v[1]))
+            elif v[0] == "const":
+                pass
+            else:
+                deps.add(vt_str(v)[:40])
+        leaves(arg)
+        txt = vt_str(arg)
+        ops = [x[1] for x in vt_walk(arg) if x[0] == "bin"]
+        max_one = other[0] == "const" and other[2] is not None and float(other[2]) == 1.0
+        bsite = "%s @%s" % (c.path, loc(t["span"]))
+        if max_one and "Div" in ops and "Mul" in ops and "subsample_frequency" in deps and len(deps) == 3:
+            R.ok("C18-R4", b.path + ":budget", bsite, "num_steps = max(1, round(%s)) over %s" % (txt[:90], sorted(deps)))
         else:
-            R.bad("C18-R4", b.path + ":budget", "%s @%s" % (budget.path, budget.loc()), "step budget %s depends on %s (expected round(subsample_frequency * L / step) floored at 1)" % (txt[:120], sorted(deps)))
+            R.bad("C18-R4", b.path + ":budget", bsite, "step budget round(%s) floored at %s depends on %s (expected round(subsample_frequency * L / step) floored at 1)" % (
+                txt[:120], vt_str(other), sorted(deps)))
     # ---- retry bookkeeping
     pushes = [(bb, t) for bb, t in b.calls() if strip_generics(t["callee"].get("path", "")).endswith("Vec::push")]
     pops = [(bb, t) for bb, t in b.calls() if strip_generics(t["callee"].get("path", "")).endswith("Vec::pop")]
